@@ -1,7 +1,1365 @@
-//! (stub — to be filled in) suite `lp`.
-use crate::out::Out;
+//! `lp.*` ops (C09): the embedded LP solver `selen::lpsolver` driven through `solve_with_config`
+//! and `solve_warmstart`.
+//!
+//! Per LP the harness prints the data (every f64 as its bit pattern), the reported status, point,
+//! objective and basis.  The compiled Lean model re-derives the terminal state from the basis in
+//! exact rationals and judges it with the verified checker; the harness prints what it obtains
+//! from its OWN exact re-derivation (i128 rationals, written independently, in the loop structure
+//! of the Rust code), so that the two verdict lines must agree.
+//!
+//! Implementation-side oracle (independent of both): exact vertex enumeration.
+use crate::out::{b, guarded, Out};
+use crate::rng::Rng;
+use selen::lpsolver::{self, LpConfig, LpError, LpProblem, LpSolution, LpStatus};
+use std::cell::RefCell;
+use std::cmp::Ordering;
 
-pub fn suite(_out: &mut Out, _seed: u64, _count: u64, _args: &[String]) {}
+// ---------------------------------------------------------------------------------------------
+// exact arithmetic: small rationals (i128, normalised; overflow panics -> caught by `guarded`)
+// ---------------------------------------------------------------------------------------------
 
-/// replay of one protocol line of this suite inside the current case
-pub fn replay_line(_out: &mut Out, _line: &str) {}
+fn gcd(a: i128, b: i128) -> i128 {
+    let (mut a, mut b) = (a.abs(), b.abs());
+    while b != 0 {
+        let t = a % b;
+        a = b;
+        b = t;
+    }
+    a
+}
+
+#[derive(Clone, Copy, PartialEq, Eq, Debug)]
+struct Q {
+    n: i128,
+    d: i128,
+}
+
+impl Q {
+    fn new(n: i128, d: i128) -> Q {
+        assert!(d != 0);
+        let g = gcd(n, d);
+        let (mut n, mut d) = if g == 0 { (0, 1) } else { (n / g, d / g) };
+        if d < 0 {
+            n = -n;
+            d = -d;
+        }
+        Q { n, d }
+    }
+    fn int(i: i128) -> Q {
+        Q { n: i, d: 1 }
+    }
+    fn zero() -> Q {
+        Q::int(0)
+    }
+    fn add(self, o: Q) -> Q {
+        Q::new(self.n * o.d + o.n * self.d, self.d * o.d)
+    }
+    fn sub(self, o: Q) -> Q {
+        Q::new(self.n * o.d - o.n * self.d, self.d * o.d)
+    }
+    fn mul(self, o: Q) -> Q {
+        Q::new(self.n * o.n, self.d * o.d)
+    }
+    fn div(self, o: Q) -> Q {
+        Q::new(self.n * o.d, self.d * o.n)
+    }
+    fn neg(self) -> Q {
+        Q { n: -self.n, d: self.d }
+    }
+    fn abs(self) -> Q {
+        Q { n: self.n.abs(), d: self.d }
+    }
+    fn is_zero(self) -> bool {
+        self.n == 0
+    }
+    fn cmp(self, o: Q) -> Ordering {
+        (self.n * o.d).cmp(&(o.n * self.d))
+    }
+    fn le(self, o: Q) -> bool {
+        self.cmp(o) != Ordering::Greater
+    }
+    fn lt(self, o: Q) -> bool {
+        self.cmp(o) == Ordering::Less
+    }
+    fn to_f64(self) -> f64 {
+        self.n as f64 / self.d as f64
+    }
+}
+
+/// exact value of a finite f64 as (mantissa, exponent): v = m * 2^e
+fn decompose(v: f64) -> Option<(i128, i32)> {
+    if !v.is_finite() {
+        return None;
+    }
+    let bits = v.to_bits();
+    let sign = if bits >> 63 == 1 { -1i128 } else { 1 };
+    let e = ((bits >> 52) & 0x7ff) as i32;
+    let frac = (bits & ((1u64 << 52) - 1)) as i128;
+    let (m, ex) = if e == 0 { (frac, -1074) } else { (frac + (1i128 << 52), e - 1075) };
+    Some((sign * m, ex))
+}
+
+/// exact conversion when the value is a small dyadic rational
+fn f64_to_q(v: f64) -> Option<Q> {
+    let (mut m, mut e) = decompose(v)?;
+    if m == 0 {
+        return Some(Q::zero());
+    }
+    while m % 2 == 0 && e < 0 {
+        m /= 2;
+        e += 1;
+    }
+    if e >= 0 {
+        if e > 60 {
+            return None;
+        }
+        Some(Q::int(m.checked_mul(1i128 << e)?))
+    } else {
+        if -e > 60 {
+            return None;
+        }
+        Some(Q::new(m, 1i128 << (-e)))
+    }
+}
+
+// ---------------------------------------------------------------------------------------------
+// exact arithmetic: unbounded rationals without normalisation, for the comparisons that involve
+// the returned floats and the tolerances (a handful of operations per LP)
+// ---------------------------------------------------------------------------------------------
+
+type Mag = Vec<u32>; // little endian, no trailing zero limbs
+
+fn mag_trim(mut a: Mag) -> Mag {
+    while a.last() == Some(&0) {
+        a.pop();
+    }
+    a
+}
+
+fn mag_from_u128(mut v: u128) -> Mag {
+    let mut r = vec![];
+    while v > 0 {
+        r.push((v & 0xffff_ffff) as u32);
+        v >>= 32;
+    }
+    r
+}
+
+fn mag_cmp(a: &Mag, b: &Mag) -> Ordering {
+    if a.len() != b.len() {
+        return a.len().cmp(&b.len());
+    }
+    for i in (0..a.len()).rev() {
+        if a[i] != b[i] {
+            return a[i].cmp(&b[i]);
+        }
+    }
+    Ordering::Equal
+}
+
+fn mag_add(a: &Mag, b: &Mag) -> Mag {
+    let mut r = Vec::with_capacity(a.len().max(b.len()) + 1);
+    let mut carry = 0u64;
+    for i in 0..a.len().max(b.len()) {
+        let s = carry + *a.get(i).unwrap_or(&0) as u64 + *b.get(i).unwrap_or(&0) as u64;
+        r.push((s & 0xffff_ffff) as u32);
+        carry = s >> 32;
+    }
+    if carry > 0 {
+        r.push(carry as u32);
+    }
+    r
+}
+
+/// a - b for a >= b
+fn mag_sub(a: &Mag, b: &Mag) -> Mag {
+    let mut r = Vec::with_capacity(a.len());
+    let mut borrow = 0i64;
+    for i in 0..a.len() {
+        let mut d = a[i] as i64 - borrow - *b.get(i).unwrap_or(&0) as i64;
+        if d < 0 {
+            d += 1 << 32;
+            borrow = 1;
+        } else {
+            borrow = 0;
+        }
+        r.push(d as u32);
+    }
+    mag_trim(r)
+}
+
+fn mag_mul(a: &Mag, b: &Mag) -> Mag {
+    if a.is_empty() || b.is_empty() {
+        return vec![];
+    }
+    let mut r = vec![0u32; a.len() + b.len()];
+    for i in 0..a.len() {
+        let mut carry = 0u64;
+        for j in 0..b.len() {
+            let t = r[i + j] as u64 + a[i] as u64 * b[j] as u64 + carry;
+            r[i + j] = (t & 0xffff_ffff) as u32;
+            carry = t >> 32;
+        }
+        let mut k = i + b.len();
+        while carry > 0 {
+            let t = r[k] as u64 + carry;
+            r[k] = (t & 0xffff_ffff) as u32;
+            carry = t >> 32;
+            k += 1;
+        }
+    }
+    mag_trim(r)
+}
+
+fn mag_pow2(e: u32) -> Mag {
+    let mut r = vec![0u32; (e / 32) as usize];
+    r.push(1u32 << (e % 32));
+    r
+}
+
+/// value = (neg ? -1 : 1) * num / den, den > 0
+#[derive(Clone, Debug)]
+struct BR {
+    neg: bool,
+    num: Mag,
+    den: Mag,
+}
+
+impl BR {
+    fn from_q(q: Q) -> BR {
+        BR { neg: q.n < 0, num: mag_from_u128(q.n.unsigned_abs()), den: mag_from_u128(q.d as u128) }
+    }
+    fn from_f64(v: f64) -> Option<BR> {
+        let (m, e) = decompose(v)?;
+        let mag = mag_from_u128(m.unsigned_abs());
+        Some(if e >= 0 {
+            BR { neg: m < 0, num: mag_mul(&mag, &mag_pow2(e as u32)), den: vec![1] }
+        } else {
+            BR { neg: m < 0, num: mag, den: mag_pow2((-e) as u32) }
+        })
+    }
+    fn negate(&self) -> BR {
+        BR { neg: !self.neg && !self.num.is_empty(), num: self.num.clone(), den: self.den.clone() }
+    }
+    fn abs(&self) -> BR {
+        BR { neg: false, num: self.num.clone(), den: self.den.clone() }
+    }
+    fn add(&self, o: &BR) -> BR {
+        let a = mag_mul(&self.num, &o.den);
+        let c = mag_mul(&o.num, &self.den);
+        let den = mag_mul(&self.den, &o.den);
+        if self.neg == o.neg {
+            BR { neg: self.neg, num: mag_add(&a, &c), den }
+        } else {
+            match mag_cmp(&a, &c) {
+                Ordering::Equal => BR { neg: false, num: vec![], den },
+                Ordering::Greater => BR { neg: self.neg, num: mag_sub(&a, &c), den },
+                Ordering::Less => BR { neg: o.neg, num: mag_sub(&c, &a), den },
+            }
+        }
+    }
+    fn sub(&self, o: &BR) -> BR {
+        self.add(&o.negate())
+    }
+    fn mul(&self, o: &BR) -> BR {
+        let num = mag_mul(&self.num, &o.num);
+        BR { neg: (self.neg != o.neg) && !num.is_empty(), num, den: mag_mul(&self.den, &o.den) }
+    }
+    fn cmp(&self, o: &BR) -> Ordering {
+        let sa = if self.num.is_empty() { 0 } else if self.neg { -1 } else { 1 };
+        let sb = if o.num.is_empty() { 0 } else if o.neg { -1 } else { 1 };
+        if sa != sb {
+            return sa.cmp(&sb);
+        }
+        let a = mag_mul(&self.num, &o.den);
+        let c = mag_mul(&o.num, &self.den);
+        let m = mag_cmp(&a, &c);
+        if sa < 0 { m.reverse() } else { m }
+    }
+    fn le(&self, o: &BR) -> bool {
+        self.cmp(o) != Ordering::Greater
+    }
+    fn lt(&self, o: &BR) -> bool {
+        self.cmp(o) == Ordering::Less
+    }
+}
+
+// ---------------------------------------------------------------------------------------------
+// problems
+// ---------------------------------------------------------------------------------------------
+
+/// what is handed to the solver, as floats (dimension fields may disagree with the vectors in
+/// the malformed stream)
+#[derive(Clone, Debug)]
+pub struct Raw {
+    nv: usize,
+    nc: usize,
+    c: Vec<f64>,
+    a: Vec<Vec<f64>>,
+    b: Vec<f64>,
+    lo: Vec<f64>,
+    up: Vec<f64>,
+    ftol: f64,
+    otol: f64,
+}
+
+/// exact view of a validated problem with finite data (`None` upper bound = +inf)
+#[derive(Clone, Debug)]
+struct Exact {
+    n: usize,
+    m: usize,
+    c: Vec<Q>,
+    a: Vec<Vec<Q>>,
+    b: Vec<Q>,
+    lo: Vec<Q>,
+    up: Vec<Option<Q>>,
+}
+
+fn bits_list(v: &[f64]) -> String {
+    v.iter().map(|x| x.to_bits().to_string()).collect::<Vec<_>>().join(",")
+}
+
+impl Raw {
+    fn to_problem(&self) -> LpProblem {
+        LpProblem::new(self.nv, self.nc, self.c.clone(), self.a.clone(), self.b.clone(), self.lo.clone(), self.up.clone())
+    }
+    fn config(&self) -> LpConfig {
+        let mut cfg = LpConfig::default();
+        cfg.feasibility_tol = self.ftol;
+        cfg.optimality_tol = self.otol;
+        cfg
+    }
+    fn line(&self, first: bool) -> String {
+        let rows: String = self.a.iter().map(|r| bits_list(r) + ";").collect();
+        format!(
+            "lp.prob {} nv={} nc={} c={} a={} b={} lo={} up={} ftol={} otol={}",
+            if first { "first" } else { "next" },
+            self.nv,
+            self.nc,
+            bits_list(&self.c),
+            rows,
+            bits_list(&self.b),
+            bits_list(&self.lo),
+            bits_list(&self.up),
+            self.ftol.to_bits(),
+            self.otol.to_bits()
+        )
+    }
+    /// exact view; `None` when some lower bound is not finite, some upper bound is NaN / -inf, or a
+    /// value is not a small dyadic rational
+    fn exact(&self) -> Option<Exact> {
+        let qs = |v: &[f64]| v.iter().map(|x| f64_to_q(*x)).collect::<Option<Vec<Q>>>();
+        let up = self
+            .up
+            .iter()
+            .map(|u| if *u == f64::INFINITY { Some(None) } else { f64_to_q(*u).map(Some) })
+            .collect::<Option<Vec<Option<Q>>>>()?;
+        Some(Exact {
+            n: self.nv,
+            m: self.nc,
+            c: qs(&self.c)?,
+            a: self.a.iter().map(|r| qs(r)).collect::<Option<Vec<_>>>()?,
+            b: qs(&self.b)?,
+            lo: qs(&self.lo)?,
+            up,
+        })
+    }
+}
+
+fn err_name(e: &LpError) -> String {
+    let s = format!("{e:?}");
+    s.split(|c: char| c == ' ' || c == '{' || c == '(').next().unwrap_or("").to_string()
+}
+
+fn validate_string(p: &LpProblem) -> String {
+    match p.validate() {
+        Ok(()) => "ok".to_string(),
+        Err(LpError::ConstraintRowDimensionMismatch { row, .. }) => format!("ConstraintRowDimensionMismatch:{row}"),
+        Err(LpError::InvalidVariableBounds { variable, .. }) => format!("InvalidVariableBounds:{variable}"),
+        Err(e) => err_name(&e),
+    }
+}
+
+// ---------------------------------------------------------------------------------------------
+// the harness's own exact re-derivation of a terminal state
+// ---------------------------------------------------------------------------------------------
+
+struct StdForm {
+    rows: usize,
+    cols: usize,
+    a: Vec<Vec<Q>>,
+    b: Vec<Q>,
+    c: Vec<Q>,
+}
+
+/// `PrimalSimplex::to_standard_form`, same loop structure, exact
+fn primal_form(e: &Exact) -> StdForm {
+    let (m, n) = (e.m, e.n);
+    let mut b_adj = e.b.clone();
+    for i in 0..m {
+        for j in 0..n {
+            b_adj[i] = b_adj[i].sub(e.a[i][j].mul(e.lo[j]));
+        }
+    }
+    let n_ub = e.up.iter().filter(|u| u.is_some()).count();
+    let rows = m + n_ub;
+    let cols = n + rows;
+    let mut a = vec![vec![Q::zero(); cols]; rows];
+    let mut bb = vec![Q::zero(); rows];
+    for i in 0..m {
+        for j in 0..n {
+            a[i][j] = e.a[i][j];
+        }
+        bb[i] = b_adj[i];
+        a[i][n + i] = Q::int(1);
+    }
+    let mut r = m;
+    let mut s = n + m;
+    for j in 0..n {
+        if let Some(u) = e.up[j] {
+            a[r][j] = Q::int(1);
+            a[r][s] = Q::int(1);
+            bb[r] = u.sub(e.lo[j]);
+            r += 1;
+            s += 1;
+        }
+    }
+    let mut c = e.c.clone();
+    c.extend(vec![Q::zero(); rows]);
+    StdForm { rows, cols, a, b: bb, c }
+}
+
+/// `DualSimplex::to_standard_form`
+fn dual_form(e: &Exact) -> StdForm {
+    let (m, n) = (e.m, e.n);
+    let cols = n + m;
+    let mut a = vec![vec![Q::zero(); cols]; m];
+    for i in 0..m {
+        for j in 0..n {
+            a[i][j] = e.a[i][j];
+        }
+        a[i][n + i] = Q::int(1);
+    }
+    let mut c = e.c.clone();
+    c.extend(vec![Q::zero(); m]);
+    StdForm { rows: m, cols, a, b: e.b.clone(), c }
+}
+
+/// solve the square system M v = rhs by Gaussian elimination with back substitution
+fn solve_exact(mut mat: Vec<Vec<Q>>, mut rhs: Vec<Q>) -> Option<Vec<Q>> {
+    let n = rhs.len();
+    for k in 0..n {
+        let p = (k..n).find(|&i| !mat[i][k].is_zero())?;
+        mat.swap(k, p);
+        rhs.swap(k, p);
+        for i in (k + 1)..n {
+            if mat[i][k].is_zero() {
+                continue;
+            }
+            let f = mat[i][k].div(mat[k][k]);
+            for j in k..n {
+                let t = mat[k][j].mul(f);
+                mat[i][j] = mat[i][j].sub(t);
+            }
+            let t = rhs[k].mul(f);
+            rhs[i] = rhs[i].sub(t);
+        }
+    }
+    let mut x = vec![Q::zero(); n];
+    for i in (0..n).rev() {
+        let mut s = rhs[i];
+        for j in (i + 1)..n {
+            s = s.sub(mat[i][j].mul(x[j]));
+        }
+        x[i] = s.div(mat[i][i]);
+    }
+    Some(x)
+}
+
+/// (verdict, exact full solution)
+fn judge(f: &StdForm, ftol: &BR, otol: &BR, basis: &[usize]) -> (String, Option<Vec<Q>>) {
+    let m = f.rows;
+    let mut seen = vec![false; f.cols];
+    if basis.len() != m {
+        return ("illegal:shape".into(), None);
+    }
+    for &j in basis {
+        if j >= f.cols || seen[j] {
+            return ("illegal:shape".into(), None);
+        }
+        seen[j] = true;
+    }
+    // B[i][k] = A[i][basis[k]]
+    let bmat: Vec<Vec<Q>> = (0..m).map(|i| basis.iter().map(|&j| f.a[i][j]).collect()).collect();
+    let bt: Vec<Vec<Q>> = basis.iter().map(|&j| (0..m).map(|i| f.a[i][j]).collect()).collect();
+    let cb: Vec<Q> = basis.iter().map(|&j| f.c[j]).collect();
+    let (xb, y) = match (solve_exact(bmat, f.b.clone()), solve_exact(bt, cb)) {
+        (Some(x), Some(y)) => (x, y),
+        _ => return ("illegal:singular".into(), None),
+    };
+    let mut z = vec![Q::zero(); f.cols];
+    for (k, &j) in basis.iter().enumerate() {
+        z[j] = xb[k];
+    }
+    let minus_ftol = ftol.negate();
+    if xb.iter().any(|v| BR::from_q(*v).lt(&minus_ftol)) {
+        return ("illegal:primal".into(), Some(z));
+    }
+    for j in 0..f.cols {
+        if seen[j] {
+            continue;
+        }
+        let mut r = f.c[j];
+        for i in 0..m {
+            r = r.sub(y[i].mul(f.a[i][j]));
+        }
+        if otol.lt(&BR::from_q(r)) {
+            return ("illegal:dual".into(), Some(z));
+        }
+    }
+    ("legal".into(), Some(z))
+}
+
+// ---------------------------------------------------------------------------------------------
+// oracle: exact vertex enumeration
+// ---------------------------------------------------------------------------------------------
+
+#[derive(Clone, Debug, PartialEq)]
+enum Truth {
+    Infeasible,
+    Unbounded,
+    Optimal(Q),
+}
+
+/// maximum of c.x over { rows: a.x <= b } given as (a, b) pairs, by enumerating the vertices
+/// (the region must be pointed); `None` when empty
+fn vertex_max(n: usize, cons: &[(Vec<Q>, Q)], c: &[Q]) -> Option<Q> {
+    let k = cons.len();
+    let mut best: Option<Q> = None;
+    if n == 0 {
+        return if cons.iter().all(|(_, b)| Q::zero().le(*b)) { Some(Q::zero()) } else { None };
+    }
+    let mut idx: Vec<usize> = (0..n).collect();
+    if k < n {
+        return None;
+    }
+    loop {
+        let mat: Vec<Vec<Q>> = idx.iter().map(|&i| cons[i].0.clone()).collect();
+        let rhs: Vec<Q> = idx.iter().map(|&i| cons[i].1).collect();
+        if let Some(x) = solve_exact(mat, rhs) {
+            let feas = cons.iter().all(|(a, b)| {
+                let mut s = Q::zero();
+                for j in 0..n {
+                    s = s.add(a[j].mul(x[j]));
+                }
+                s.le(*b)
+            });
+            if feas {
+                let mut o = Q::zero();
+                for j in 0..n {
+                    o = o.add(c[j].mul(x[j]));
+                }
+                if best.map_or(true, |bst| bst.lt(o)) {
+                    best = Some(o);
+                }
+            }
+        }
+        // next combination
+        let mut i = n;
+        loop {
+            if i == 0 {
+                return best;
+            }
+            i -= 1;
+            if idx[i] != i + k - n {
+                break;
+            }
+        }
+        idx[i] += 1;
+        for j in (i + 1)..n {
+            idx[j] = idx[j - 1] + 1;
+        }
+    }
+}
+
+fn unit_row(n: usize, j: usize, v: i128) -> Vec<Q> {
+    let mut r = vec![Q::zero(); n];
+    r[j] = Q::int(v);
+    r
+}
+
+fn truth(e: &Exact) -> Truth {
+    let n = e.n;
+    let mut cons: Vec<(Vec<Q>, Q)> = vec![];
+    for i in 0..e.m {
+        cons.push((e.a[i].clone(), e.b[i]));
+    }
+    for j in 0..n {
+        cons.push((unit_row(n, j, -1), e.lo[j].neg()));
+        if let Some(u) = e.up[j] {
+            cons.push((unit_row(n, j, 1), u));
+        }
+    }
+    let best = match vertex_max(n, &cons, &e.c) {
+        None => return Truth::Infeasible,
+        Some(v) => v,
+    };
+    // recession cone, cut by the box 0 <= d_j <= 1 (d_j = 0 where u_j is finite)
+    let mut ray: Vec<(Vec<Q>, Q)> = vec![];
+    for i in 0..e.m {
+        ray.push((e.a[i].clone(), Q::zero()));
+    }
+    for j in 0..n {
+        ray.push((unit_row(n, j, -1), Q::zero()));
+        ray.push((unit_row(n, j, 1), if e.up[j].is_some() { Q::zero() } else { Q::int(1) }));
+    }
+    match vertex_max(n, &ray, &e.c) {
+        Some(v) if Q::zero().lt(v) => Truth::Unbounded,
+        _ => Truth::Optimal(best),
+    }
+}
+
+// ---------------------------------------------------------------------------------------------
+// running one LP
+// ---------------------------------------------------------------------------------------------
+
+#[derive(Clone, Debug)]
+enum Outcome {
+    Ok(LpSolution),
+    Err(String),
+    Panic,
+}
+
+#[derive(Default)]
+pub struct State {
+    raw: Option<Raw>,
+    exact: Option<Exact>,
+    valid: bool,
+    guard: bool,
+    dual_guard: bool,
+    truth: Option<Truth>,
+    /// cold solution of the current problem / of the previous problem of the case
+    cold: Option<Outcome>,
+    prev: Option<LpSolution>,
+    /// the harness's own verdict on those two terminal states
+    cold_legal: bool,
+    prev_legal: bool,
+}
+
+thread_local! {
+    static REPLAY: RefCell<State> = RefCell::new(State::default());
+}
+
+fn status_name(s: LpStatus) -> &'static str {
+    match s {
+        LpStatus::Optimal => "Optimal",
+        LpStatus::Infeasible => "Infeasible",
+        LpStatus::Unbounded => "Unbounded",
+        LpStatus::IterationLimit => "IterationLimit",
+        LpStatus::NumericalError => "NumericalError",
+    }
+}
+
+fn sum_abs(c: &[Q]) -> Q {
+    c.iter().fold(Q::zero(), |s, v| s.add(v.abs()))
+}
+
+pub fn do_prob(out: &mut Out, st: &mut State, raw: Raw, first: bool) {
+    if first {
+        *st = State::default();
+    } else {
+        st.prev = match st.cold.take() {
+            Some(Outcome::Ok(s)) => Some(s),
+            _ => None,
+        };
+        st.prev_legal = st.cold_legal;
+    }
+    let p = raw.to_problem();
+    let v = validate_string(&p);
+    st.valid = v == "ok";
+    st.exact = if st.valid { raw.exact() } else { None };
+    st.truth = None;
+    st.cold = None;
+    st.cold_legal = false;
+    let res = match (&st.exact, BR::from_f64(raw.ftol)) {
+        (Some(e), Some(ftol)) => {
+            let r = guarded(|| {
+                let f = primal_form(e);
+                let neg = ftol.negate();
+                let guard = f.b.iter().all(|v| neg.le(&BR::from_q(*v)));
+                let dg = e.lo.iter().all(|l| l.is_zero()) && e.up.iter().all(|u| u.is_none());
+                (f.rows, f.cols, guard, dg, truth(e))
+            });
+            match r {
+                Some((rows, cols, guard, dg, t)) => {
+                    st.guard = guard;
+                    st.dual_guard = dg;
+                    st.truth = Some(t);
+                    format!("validate=ok std={rows}x{cols} guard={} dual={}", b(guard), b(dg))
+                }
+                None => "validate=ok exact-overflow".to_string(),
+            }
+        }
+        _ => format!("validate={v} std=- guard=- dual=-"),
+    };
+    out.stat(&format!("validate:{}", v.split(':').next().unwrap_or("")));
+    if st.exact.is_some() {
+        out.stat(&format!("n={}", raw.nv));
+        out.stat(&format!("m={}", raw.nc));
+        out.stat(if st.guard { "phase1:skipped" } else { "phase1:needed" });
+        match &st.truth {
+            Some(Truth::Infeasible) => out.stat("truth:infeasible"),
+            Some(Truth::Unbounded) => out.stat("truth:unbounded"),
+            Some(Truth::Optimal(_)) => out.stat("truth:optimal"),
+            None => {}
+        }
+    }
+    out.emit(raw.line(first), res);
+    st.raw = Some(raw);
+}
+
+fn run(path: &str, raw: &Raw, warm: Option<&LpSolution>) -> Outcome {
+    let p = raw.to_problem();
+    let cfg = raw.config();
+    let r = guarded(|| match path {
+        "cold" => lpsolver::solve_with_config(&p, &cfg),
+        _ => lpsolver::solve_warmstart(&p, warm.unwrap(), &cfg),
+    });
+    match r {
+        Some(Ok(s)) => Outcome::Ok(s),
+        Some(Err(e)) => Outcome::Err(err_name(&e)),
+        None => Outcome::Panic,
+    }
+}
+
+fn close(a: &BR, e: &BR, tol: &BR) -> bool {
+    a.sub(e).abs().le(tol)
+}
+
+/// the harness's own exact judgement of a claimed terminal state (what the model must print too)
+fn verdict_line(raw: &Raw, exact: Option<&Exact>, cold: bool, status: LpStatus, objective: f64, x: &[f64], basis: &[usize]) -> String {
+    let reach = matches!(status, LpStatus::Optimal | LpStatus::Unbounded | LpStatus::IterationLimit);
+    if status != LpStatus::Optimal {
+        return format!("reach={} n/a", b(reach));
+    }
+    let e = match exact {
+        None => return format!("reach={} unmodelled", b(reach)),
+        Some(e) => e,
+    };
+    guarded(|| {
+        let ftol = BR::from_f64(raw.ftol).unwrap();
+        let otol = BR::from_f64(raw.otol).unwrap();
+        let f = if cold { primal_form(e) } else { dual_form(e) };
+        let (verdict, z) = judge(&f, &ftol, &otol, basis);
+        let objtol = ftol.mul(&BR::from_q(Q::int(1).add(sum_abs(&e.c))));
+        let xs: Option<Vec<BR>> = x.iter().map(|v| BR::from_f64(*v)).collect();
+        let o = BR::from_f64(objective);
+        let objcx = match (&o, &xs) {
+            (Some(o), Some(xs)) if xs.len() == e.n => {
+                let mut cx = BR::from_q(Q::zero());
+                for j in 0..e.n {
+                    cx = cx.add(&BR::from_q(e.c[j]).mul(&xs[j]));
+                }
+                if close(o, &cx, &objtol) { "ok" } else { "bad" }
+            }
+            _ => "bad",
+        };
+        match z {
+            None => format!("reach={} {verdict} xdev=- obj=- objcx={objcx}", b(reach)),
+            Some(z) => {
+                let mut xe = vec![];
+                let mut oe = Q::zero();
+                for j in 0..f.cols {
+                    oe = oe.add(f.c[j].mul(z[j]));
+                }
+                for j in 0..e.n {
+                    xe.push(if cold { z[j].add(e.lo[j]) } else { z[j] });
+                    if cold {
+                        oe = oe.add(e.c[j].mul(e.lo[j]));
+                    }
+                }
+                let xdev = match &xs {
+                    Some(xs) if xs.len() == e.n => (0..e.n).all(|j| close(&xs[j], &BR::from_q(xe[j]), &ftol)),
+                    _ => false,
+                };
+                let objv = match &o {
+                    Some(o) => close(o, &BR::from_q(oe), &objtol),
+                    None => false,
+                };
+                format!(
+                    "reach={} {verdict} xdev={} obj={} objcx={objcx}",
+                    b(reach),
+                    if xdev { "ok" } else { "bad" },
+                    if objv { "ok" } else { "bad" }
+                )
+            }
+        }
+    })
+    .unwrap_or_else(|| "exact-overflow".to_string())
+}
+
+/// a claimed terminal state that does NOT come from the solver (random basis): exercises every
+/// branch of the two checkers against each other; no oracle
+pub fn do_synth(out: &mut Out, st: &State, objective: f64, x: &[f64], basis: &[usize]) {
+    let raw = match &st.raw {
+        Some(r) => r,
+        None => return,
+    };
+    let op = format!(
+        "lp.sol synth st=Optimal obj={} x={} basis={}",
+        objective.to_bits(),
+        bits_list(x),
+        basis.iter().map(|i| i.to_string()).collect::<Vec<_>>().join(",")
+    );
+    let res = verdict_line(raw, st.exact.as_ref(), true, LpStatus::Optimal, objective, x, basis);
+    out.stat(&format!("synth:{}", res.split_whitespace().nth(1).unwrap_or("?")));
+    out.emit(op, res);
+}
+
+/// `path` = cold | warm-self | warm-prev
+pub fn do_sol(out: &mut Out, st: &mut State, path: &str) {
+    let raw = match &st.raw {
+        Some(r) => r.clone(),
+        None => return,
+    };
+    let warm_src: Option<LpSolution> = match path {
+        "cold" => None,
+        // precondition of the dual simplex: a dual-feasible basis, i.e. the basis of an Optimal answer
+        "warm-self" => match &st.cold {
+            Some(Outcome::Ok(s)) if s.status == LpStatus::Optimal => Some(s.clone()),
+            _ => None,
+        },
+        _ => st.prev.clone().filter(|s| s.status == LpStatus::Optimal),
+    };
+    if path != "cold" && warm_src.is_none() {
+        return;
+    }
+    let oc = run(path, &raw, warm_src.as_ref());
+    // known-finding matchers (input-side):
+    //   lp-phase1      cold solve of an LP whose slack basis is infeasible after the lower-bound shift
+    //   lp-warm-form   warm start of an LP with a non-zero lower or a finite upper bound (the dual
+    //                  solver's standard form drops the bounds; basis sizes differ)
+    //   lp-phase1      warm start from a cold answer whose terminal state was itself illegal
+    //   lp-warm-xbasic any other warm start (DualSimplex::solve indexes the variable-indexed result
+    //                  of Basis::solve_basic by basis position)
+    let tag_of = |st: &State, cold: bool| -> &'static str {
+        if cold {
+            if !st.guard { "lp-phase1" } else { "-" }
+        } else if !st.dual_guard {
+            "lp-warm-form"
+        } else if !(if path == "warm-self" { st.cold_legal } else { st.prev_legal }) {
+            "lp-phase1"
+        } else {
+            "lp-warm-xbasic"
+        }
+    };
+    let cold = path == "cold";
+    let (op, res) = match &oc {
+        Outcome::Err(e) => (format!("lp.sol {path} st=Err:{e} obj=0 x= basis="), "err".to_string()),
+        Outcome::Panic => (format!("lp.sol {path} st=panic obj=0 x= basis="), "err".to_string()),
+        Outcome::Ok(s) => {
+            let op = format!(
+                "lp.sol {path} st={} obj={} x={} basis={}",
+                status_name(s.status),
+                s.objective.to_bits(),
+                bits_list(&s.x),
+                s.basic_indices.iter().map(|i| i.to_string()).collect::<Vec<_>>().join(",")
+            );
+            let res = verdict_line(&raw, st.exact.as_ref(), cold, s.status, s.objective, &s.x, &s.basic_indices);
+            (op, res)
+        }
+    };
+    let line = out.emit(op, res.clone());
+    let st_name = match &oc {
+        Outcome::Ok(s) => status_name(s.status).to_string(),
+        Outcome::Err(e) => format!("Err:{e}"),
+        Outcome::Panic => "panic".to_string(),
+    };
+    out.stat(&format!("{path}:{st_name}"));
+    if let Outcome::Ok(s) = &oc {
+        if s.status == LpStatus::Optimal {
+            let v = res.split_whitespace().nth(1).unwrap_or("?").to_string();
+            out.stat(&format!("{path}:verdict:{v}"));
+        }
+    }
+
+    // ---- implementation-side oracle (C09) ----
+    if let (Some(e), Some(t)) = (&st.exact, &st.truth) {
+        let tag = tag_of(st, cold);
+        let ftol = BR::from_f64(raw.ftol).unwrap();
+        let objtol = ftol.mul(&BR::from_q(Q::int(1).add(sum_abs(&e.c))));
+        let fail = |out: &mut Out, what: String| out.fail(line, "C09", tag, format!("{path}: {what}"));
+        match &oc {
+            Outcome::Ok(s) => match s.status {
+                LpStatus::Optimal => {
+                    let xs: Option<Vec<BR>> = s.x.iter().map(|v| BR::from_f64(*v)).collect();
+                    match (xs, BR::from_f64(s.objective)) {
+                        (Some(xs), Some(o)) if xs.len() == e.n => {
+                            // feasibility within the tolerance
+                            let mut viol: Option<String> = None;
+                            for i in 0..e.m {
+                                let mut ax = BR::from_q(Q::zero());
+                                for j in 0..e.n {
+                                    ax = ax.add(&BR::from_q(e.a[i][j]).mul(&xs[j]));
+                                }
+                                if !ax.le(&BR::from_q(e.b[i]).add(&ftol)) && viol.is_none() {
+                                    viol = Some(format!("row {i} violated"));
+                                }
+                            }
+                            for j in 0..e.n {
+                                if xs[j].lt(&BR::from_q(e.lo[j]).sub(&ftol)) && viol.is_none() {
+                                    viol = Some(format!("x{j}={} below lower bound {}", s.x[j], e.lo[j].to_f64()));
+                                }
+                                if let Some(u) = e.up[j] {
+                                    if BR::from_q(u).add(&ftol).lt(&xs[j]) && viol.is_none() {
+                                        viol = Some(format!("x{j}={} above upper bound {}", s.x[j], u.to_f64()));
+                                    }
+                                }
+                            }
+                            if let Some(v) = viol {
+                                let what = match t {
+                                    Truth::Infeasible => "the LP is infeasible".to_string(),
+                                    Truth::Unbounded => "the LP is unbounded".to_string(),
+                                    Truth::Optimal(o) => format!("the LP has optimum {}", o.to_f64()),
+                                };
+                                fail(out, format!("Optimal with an infeasible point ({v}); x={:?}; {what}", s.x));
+                            } else {
+                                match t {
+                                    Truth::Optimal(opt) => {
+                                        if !close(&o, &BR::from_q(*opt), &objtol) {
+                                            fail(out, format!("Optimal with objective {} but the optimum is {}; x={:?}", s.objective, opt.to_f64(), s.x));
+                                        }
+                                    }
+                                    Truth::Unbounded => fail(out, format!("Optimal (objective {}) on an unbounded LP", s.objective)),
+                                    Truth::Infeasible => fail(out, "Optimal with a feasible-looking point on an infeasible LP (oracle inconsistency)".to_string()),
+                                }
+                            }
+                            let mut cx = BR::from_q(Q::zero());
+                            for j in 0..e.n {
+                                cx = cx.add(&BR::from_q(e.c[j]).mul(&xs[j]));
+                            }
+                            if !close(&o, &cx, &objtol) {
+                                fail(out, format!("reported objective {} is not c.x of the returned point {:?}", s.objective, s.x));
+                            }
+                        }
+                        _ => fail(out, format!("Optimal with a malformed point x={:?} objective={}", s.x, s.objective)),
+                    }
+                }
+                LpStatus::Infeasible => {
+                    out.stat("status-infeasible-seen");
+                    if *t != Truth::Infeasible {
+                        fail(out, "Infeasible reported for a feasible LP".to_string());
+                    }
+                }
+                LpStatus::Unbounded => {
+                    if *t != Truth::Unbounded {
+                        fail(out, format!("Unbounded reported but the LP is {}", if *t == Truth::Infeasible { "infeasible" } else { "bounded" }));
+                    }
+                }
+                _ => {}
+            },
+            Outcome::Err(en) => {
+                if *t != Truth::Infeasible {
+                    fail(out, format!("Err({en}) on a feasible LP"));
+                } else {
+                    out.stat("err-on-infeasible");
+                }
+            }
+            Outcome::Panic => fail(out, "panic".to_string()),
+        }
+        // warm vs cold (same problem)
+        if !cold {
+            if let (Some(Outcome::Ok(cs)), Outcome::Ok(ws)) = (&st.cold, &oc) {
+                if cs.status == LpStatus::Optimal && ws.status == LpStatus::Optimal {
+                    if let (Some(a), Some(bb)) = (BR::from_f64(cs.objective), BR::from_f64(ws.objective)) {
+                        if !close(&a, &bb, &objtol) {
+                            fail(out, format!("warm objective {} != cold objective {}", ws.objective, cs.objective));
+                        }
+                    }
+                } else if cs.status != ws.status {
+                    fail(out, format!("warm status {} != cold status {}", status_name(ws.status), status_name(cs.status)));
+                }
+            }
+        }
+    }
+    if cold {
+        st.cold_legal = res.split_whitespace().nth(1) == Some("legal");
+        st.cold = Some(oc);
+    }
+}
+
+// ---------------------------------------------------------------------------------------------
+// generators
+// ---------------------------------------------------------------------------------------------
+
+fn half(rng: &mut Rng, lo: i64, hi: i64, halves: bool) -> Q {
+    let v = rng.range(lo * 2, hi * 2);
+    if halves { Q::new(v as i128, 2) } else { Q::int((v / 2) as i128) }
+}
+
+fn default_tols() -> (f64, f64) {
+    let c = LpConfig::default();
+    (c.feasibility_tol, c.optimality_tol)
+}
+
+struct Shape {
+    n: usize,
+    m: usize,
+}
+
+fn gen_exact(rng: &mut Rng, sh: &Shape, out: &mut Out) -> Exact {
+    let (n, m) = (sh.n, sh.m);
+    let halves = rng.chance(1, 3);
+    let mut lo = vec![];
+    let mut up = vec![];
+    let style = rng.below(10);
+    for _ in 0..n {
+        // style 0: l = 0, u = inf everywhere (the dual solver's own form); style 1: l = 0
+        let l = if style <= 1 { Q::zero() } else { half(rng, -3, 3, halves) };
+        let u = if style == 0 || rng.chance(1, 7) {
+            None
+        } else {
+            let w = match rng.below(8) {
+                0 => Q::zero(),
+                1 => Q::new(1, 2),
+                _ => half(rng, 1, 6, halves),
+            };
+            Some(l.add(w))
+        };
+        lo.push(l);
+        up.push(u);
+    }
+    let c: Vec<Q> = (0..n).map(|_| if rng.chance(1, 5) { Q::zero() } else { half(rng, -4, 4, halves) }).collect();
+    let mut a: Vec<Vec<Q>> = vec![];
+    let mut bv: Vec<Q> = vec![];
+    // a witness point inside the box makes most LPs feasible
+    let wit: Vec<Q> = (0..n)
+        .map(|j| match up[j] {
+            Some(u) => {
+                let k = rng.below(3) as i128;
+                lo[j].add(u.sub(lo[j]).mul(Q::new(k, 2)))
+            }
+            None => lo[j].add(half(rng, 0, 3, halves)),
+        })
+        .collect();
+    for i in 0..m {
+        let kind = rng.below(12);
+        if kind == 0 && i > 0 {
+            // duplicate / scaled copy of an earlier row (redundant)
+            let src = rng.below(i as u64) as usize;
+            let k = *rng.pick(&[Q::int(1), Q::int(2), Q::new(1, 2)]);
+            a.push(a[src].iter().map(|v| v.mul(k)).collect());
+            bv.push(bv[src].mul(k).add(if rng.chance(1, 2) { Q::zero() } else { Q::int(1) }));
+            out.stat("row:redundant");
+            continue;
+        }
+        let row: Vec<Q> = (0..n).map(|_| if rng.chance(1, 4) { Q::zero() } else { half(rng, -4, 4, halves) }).collect();
+        let mut at = Q::zero();
+        for j in 0..n {
+            at = at.add(row[j].mul(wit[j]));
+        }
+        let rhs = match kind {
+            1 | 2 => {
+                out.stat("row:tight");
+                at // through the witness: degenerate
+            }
+            3 => {
+                out.stat("row:random-rhs");
+                half(rng, -6, 8, halves)
+            }
+            4 => {
+                out.stat("row:cuts-witness");
+                at.sub(half(rng, 1, 3, halves))
+            }
+            _ => {
+                out.stat("row:slack");
+                at.add(half(rng, 0, 4, halves))
+            }
+        };
+        a.push(row);
+        bv.push(rhs);
+    }
+    Exact { n, m, c, a, b: bv, lo, up }
+}
+
+fn raw_of(e: &Exact) -> Raw {
+    let (ftol, otol) = default_tols();
+    Raw {
+        nv: e.n,
+        nc: e.m,
+        c: e.c.iter().map(|q| q.to_f64()).collect(),
+        a: e.a.iter().map(|r| r.iter().map(|q| q.to_f64()).collect()).collect(),
+        b: e.b.iter().map(|q| q.to_f64()).collect(),
+        lo: e.lo.iter().map(|q| q.to_f64()).collect(),
+        up: e.up.iter().map(|u| u.map_or(f64::INFINITY, |q| q.to_f64())).collect(),
+        ftol,
+        otol,
+    }
+}
+
+fn malformed(rng: &mut Rng, out: &mut Out) -> Raw {
+    let sh = Shape { n: rng.range(1, 3) as usize, m: rng.range(0, 3) as usize };
+    let e = gen_exact(rng, &sh, out);
+    let mut r = raw_of(&e);
+    let specials = [f64::NAN, f64::INFINITY, f64::NEG_INFINITY, -0.0];
+    let kind = rng.below(12);
+    out.stat(&format!("malformed:{kind}"));
+    match kind {
+        0 => r.c.push(1.0),
+        1 => r.nc += 1,
+        2 => {
+            if let Some(row) = r.a.last_mut() {
+                row.push(2.0)
+            } else {
+                r.nv += 1
+            }
+        }
+        3 => r.b.push(0.5),
+        4 => {
+            r.lo.pop();
+        }
+        5 => r.up.push(1.0),
+        6 => {
+            let j = rng.below(r.nv as u64) as usize;
+            r.lo[j] = 5.0;
+            r.up[j] = 3.0;
+        }
+        7 => {
+            let j = rng.below(r.nv as u64) as usize;
+            r.c[j] = *rng.pick(&specials);
+        }
+        8 => {
+            if r.nc > 0 {
+                let i = rng.below(r.nc as u64) as usize;
+                let j = rng.below(r.nv as u64) as usize;
+                r.a[i][j] = *rng.pick(&specials);
+            } else {
+                r.nv = 0
+            }
+        }
+        9 => {
+            if r.nc > 0 {
+                let i = rng.below(r.nc as u64) as usize;
+                r.b[i] = *rng.pick(&specials);
+            } else {
+                r.nc = 2
+            }
+        }
+        10 => {
+            let j = rng.below(r.nv as u64) as usize;
+            r.lo[j] = *rng.pick(&[f64::NAN, f64::NEG_INFINITY, f64::INFINITY]);
+        }
+        _ => {
+            let j = rng.below(r.nv as u64) as usize;
+            r.up[j] = *rng.pick(&[f64::NAN, f64::NEG_INFINITY]);
+        }
+    }
+    r
+}
+
+fn one_case(out: &mut Out, st: &mut State, id: &str, e: &Exact, rng: Option<&mut Rng>) {
+    out.case(id);
+    do_prob(out, st, raw_of(e), true);
+    do_sol(out, st, "cold");
+    do_sol(out, st, "warm-self");
+    if let Some(rng) = rng {
+        if rng.chance(1, 2) {
+            // random claimed terminal states: subsets of the standard-form columns, sometimes
+            // malformed (wrong size, repeated or out-of-range column)
+            let n_ub = e.up.iter().filter(|u| u.is_some()).count();
+            let rows = e.m + n_ub;
+            let cols = e.n + rows;
+            let (obj, x) = match &st.cold {
+                Some(Outcome::Ok(s)) if rng.chance(2, 3) => (s.objective, s.x.clone()),
+                _ => (0.0, vec![0.0; e.n]),
+            };
+            for _ in 0..2 {
+                let mut pool: Vec<usize> = (0..cols).collect();
+                let mut basis = vec![];
+                let want = match rng.below(10) {
+                    0 => rows + 1,
+                    1 => rows.saturating_sub(1),
+                    _ => rows,
+                };
+                while basis.len() < want && !pool.is_empty() {
+                    let k = rng.below(pool.len() as u64) as usize;
+                    basis.push(pool.swap_remove(k));
+                }
+                match rng.below(12) {
+                    0 if !basis.is_empty() => {
+                        let k = rng.below(basis.len() as u64) as usize;
+                        basis[k] = cols + rng.below(2) as usize;
+                    }
+                    1 if basis.len() >= 2 => basis[0] = basis[1],
+                    _ => {}
+                }
+                do_synth(out, st, obj, &x, &basis);
+            }
+        }
+        // the documented use of the warm start: the same LP with tightened / changed right-hand sides
+        if e.m > 0 && rng.chance(1, 2) {
+            let mut e2 = e.clone();
+            for i in 0..e2.m {
+                if rng.chance(1, 2) {
+                    e2.b[i] = e2.b[i].sub(Q::new(rng.range(0, 4) as i128, 2));
+                }
+            }
+            out.stat("warm-prev-cases");
+            do_prob(out, st, raw_of(&e2), false);
+            do_sol(out, st, "cold");
+            do_sol(out, st, "warm-prev");
+        }
+    }
+}
+
+fn arg(args: &[String], name: &str, default: &str) -> String {
+    args.iter().position(|a| a == name).and_then(|i| args.get(i + 1)).cloned().unwrap_or_else(|| default.to_string())
+}
+
+pub fn suite(out: &mut Out, seed: u64, count: u64, args: &[String]) {
+    let mode = arg(args, "--mode", "random");
+    let mut st = State::default();
+    if mode == "exh" {
+        exhaustive(out, &mut st, arg(args, "--universe", "1").parse().unwrap_or(1));
+        return;
+    }
+    let mut master = Rng::new(seed ^ 0x4C50_0C09);
+    for k in 0..count {
+        let mut rng = master.fork();
+        if k % 10 == 9 {
+            out.case(&format!("lp-mal-{k}"));
+            let r = malformed(&mut rng, out);
+            do_prob(out, &mut st, r, true);
+            do_sol(out, &mut st, "cold");
+            continue;
+        }
+        let sh = Shape { n: rng.range(1, 4) as usize, m: rng.range(0, 5) as usize };
+        let e = gen_exact(&mut rng, &sh, out);
+        one_case(out, &mut st, &format!("lp-{k}"), &e, Some(&mut rng));
+    }
+}
+
+/// every LP over a tiny universe: n <= `u`+... entries in {-1,0,1}, l in {-1,0}, u-l in {0,1,inf}
+fn exhaustive(out: &mut Out, st: &mut State, universe: usize) {
+    let vals = [-1i128, 0, 1];
+    let shapes: Vec<(usize, usize)> = match universe {
+        0 => vec![(1, 0), (1, 1)],
+        1 => vec![(1, 0), (1, 1), (1, 2), (2, 0)],
+        _ => vec![(1, 0), (1, 1), (1, 2), (2, 0), (2, 1)],
+    };
+    let mut id = 0u64;
+    for (n, m) in shapes {
+        // digits: c (n), a (m*n), b (m) over 3 values; bounds (n) over 6 values
+        let nd = n + m * n + m;
+        let total3 = 3usize.pow(nd as u32);
+        let total6 = 6usize.pow(n as u32);
+        for t3 in 0..total3 {
+            for t6 in 0..total6 {
+                let mut d = t3;
+                let mut next3 = || {
+                    let v = vals[d % 3];
+                    d /= 3;
+                    Q::int(v)
+                };
+                let c: Vec<Q> = (0..n).map(|_| next3()).collect();
+                let a: Vec<Vec<Q>> = (0..m).map(|_| (0..n).map(|_| next3()).collect()).collect();
+                let bv: Vec<Q> = (0..m).map(|_| next3()).collect();
+                let mut d6 = t6;
+                let mut lo = vec![];
+                let mut up = vec![];
+                for _ in 0..n {
+                    let k = d6 % 6;
+                    d6 /= 6;
+                    let l = Q::int(if k % 2 == 0 { 0 } else { -1 });
+                    lo.push(l);
+                    up.push(match k / 2 {
+                        0 => Some(l),
+                        1 => Some(l.add(Q::int(1))),
+                        _ => None,
+                    });
+                }
+                let e = Exact { n, m, c, a, b: bv, lo, up };
+                id += 1;
+                one_case(out, st, &format!("lp-exh-{id}"), &e, None);
+            }
+        }
+    }
+}
+
+// ---------------------------------------------------------------------------------------------
+// replay
+// ---------------------------------------------------------------------------------------------
+
+fn field<'a>(ws: &'a [&'a str], key: &str) -> Option<&'a str> {
+    ws.iter().find_map(|w| w.strip_prefix(key).and_then(|r| r.strip_prefix('=')))
+}
+
+fn parse_f64s(s: &str) -> Option<Vec<f64>> {
+    if s.is_empty() {
+        return Some(vec![]);
+    }
+    s.split(',').map(|t| t.parse::<u64>().ok().map(f64::from_bits)).collect()
+}
+
+fn parse_raw(ws: &[&str]) -> Option<Raw> {
+    let a_s = field(ws, "a")?;
+    let mut rows: Vec<&str> = a_s.split(';').collect();
+    rows.pop();
+    Some(Raw {
+        nv: field(ws, "nv")?.parse().ok()?,
+        nc: field(ws, "nc")?.parse().ok()?,
+        c: parse_f64s(field(ws, "c")?)?,
+        a: rows.iter().map(|r| parse_f64s(r)).collect::<Option<Vec<_>>>()?,
+        b: parse_f64s(field(ws, "b")?)?,
+        lo: parse_f64s(field(ws, "lo")?)?,
+        up: parse_f64s(field(ws, "up")?)?,
+        ftol: f64::from_bits(field(ws, "ftol")?.parse().ok()?),
+        otol: f64::from_bits(field(ws, "otol")?.parse().ok()?),
+    })
+}
+
+/// replay of one protocol line of this suite inside the current case: the problem data are taken
+/// from the line, the solver is RE-RUN (the recorded results on `lp.sol` lines are ignored)
+pub fn replay_line(out: &mut Out, line: &str) {
+    let ws: Vec<&str> = line.split_whitespace().collect();
+    REPLAY.with(|cell| {
+        let mut st = cell.borrow_mut();
+        match ws.first().copied() {
+            Some("lp.prob") => {
+                if let Some(raw) = parse_raw(&ws) {
+                    let first = ws.get(1).copied() != Some("next");
+                    do_prob(out, &mut st, raw, first);
+                } else {
+                    out.emit(line, "unparsed");
+                }
+            }
+            Some("lp.sol") if ws.get(1).copied() == Some("synth") => {
+                let parsed = (|| {
+                    let obj = f64::from_bits(field(&ws, "obj")?.parse().ok()?);
+                    let x = parse_f64s(field(&ws, "x")?)?;
+                    let bs = field(&ws, "basis")?;
+                    let basis: Vec<usize> =
+                        if bs.is_empty() { vec![] } else { bs.split(',').map(|t| t.parse().ok()).collect::<Option<Vec<_>>>()? };
+                    Some((obj, x, basis))
+                })();
+                match parsed {
+                    Some((obj, x, basis)) if st.raw.is_some() => do_synth(out, &st, obj, &x, &basis),
+                    _ => {
+                        out.emit(line, "unparsed");
+                    }
+                }
+            }
+            Some("lp.sol") => {
+                let path = ws.get(1).copied().unwrap_or("cold").to_string();
+                let before = out.ops.len();
+                do_sol(out, &mut st, &path);
+                if out.ops.len() == before {
+                    out.emit(line, "no-warm-source");
+                }
+            }
+            _ => {
+                out.emit(line, "unparsed");
+            }
+        }
+    });
+}
